@@ -4,6 +4,9 @@ pub mod sym;
 pub mod vocab;
 pub mod step;
 pub mod exec;
+pub mod commit;
+pub mod relabel;
+pub mod unit;
 
 /// All harness instances by name (used by the native replay binary).
 #[cfg(not(kani))]
@@ -11,5 +14,8 @@ pub fn registry() -> Vec<(&'static str, fn())> {
     let mut v: Vec<(&'static str, fn())> = Vec::new();
     v.extend_from_slice(step::INSTANCES);
     v.extend_from_slice(exec::INSTANCES);
+    v.extend_from_slice(commit::INSTANCES);
+    v.extend_from_slice(relabel::INSTANCES);
+    v.extend_from_slice(unit::INSTANCES);
     v
 }
